@@ -62,7 +62,8 @@ def check_fit(reg, X, ns, nu, name):
     ea = np.linalg.eigvals(A)
     nz_a = np.sort_complex(ea[np.abs(ea) > 1e-7 * scale])
     nz_l = np.sort_complex(L[np.abs(L) > 1e-7 * scale])
-    if nz_a.shape != nz_l.shape or (nz_a.size and np.max(np.abs(nz_a - nz_l)) > 1e-6 * scale):
+    well_posed = (r == 0) or np.linalg.cond(V) < 1e6     # hypothesis W V = 1 of theorem C13_spectrum: modes of full column rank
+    if well_posed and (nz_a.shape != nz_l.shape or (nz_a.size and np.max(np.abs(nz_a - nz_l)) > 1e-6 * scale)):
         return dict(what='non-zero spectrum of the state-transition block differs from eigenvalues_',
                     spectrum=[str(z) for z in nz_a], eigenvalues=[str(z) for z in nz_l])
     # certificate of theorem C13: A = V diag(L) W with W V = 1 (W = pseudo-inverse of V)
